@@ -11,3 +11,18 @@ def add(a, b):  # meaning of FnLib "sub"
 
 
 ALIAS = {"dbl": inc, "sub": add}
+
+
+def _twin(kind):
+    """Two *different* functions with the same module and the same qualified name (``_twin.<locals>.inc``), as a model
+    builder that defines its rate law inside an if / else produces them."""
+    if kind == "dbl":
+        def inc(a):  # meaning of FnLib "dbl"
+            return 2 * a
+    else:
+        def inc(a):  # meaning of FnLib "neg"
+            return -a
+    return inc
+
+
+TWIN = {"dbl": _twin("dbl"), "neg": _twin("neg")}
